@@ -274,6 +274,13 @@ class _Normaliser:
             if isinstance(z, ast.Assign) and len(z.targets) == 1 and isinstance(z.targets[0], ast.Name) and z.targets[0].id == name and \
                     not _names_loaded([z.value], name):
                 inside |= {id(y) for y in ast.walk(z)}
+            # a nested function / lambda / comprehension that binds the name itself (parameter, comprehension target) is another variable
+            if z is not self.fn and isinstance(z, (ast.FunctionDef, ast.AsyncFunctionDef, ast.Lambda)):
+                a = z.args
+                ps = {p.arg for p in a.posonlyargs + a.args + a.kwonlyargs} | ({a.vararg.arg} if a.vararg else set()) | \
+                     ({a.kwarg.arg} if a.kwarg else set())
+                if name in ps:
+                    inside |= {id(y) for y in ast.walk(z)}
         for y in ast.walk(self.fn):
             if isinstance(y, ast.Name) and y.id == name and id(y) not in inside:
                 # stores in unrelated places (another counting loop reusing the name) are harmless only if they come with their own
@@ -473,9 +480,30 @@ class _Normaliser:
         return False
 
 
+class _DropAnnotations(ast.NodeTransformer):
+    """N0: `x: T = v` is `x = v` (annotations of assignments are not evaluated for effect in this package: no dataclasses,
+    no reads of __annotations__); a bare `x: T` declares nothing the analysis needs."""
+
+    def __init__(self):
+        self.n = 0
+
+    def visit_AnnAssign(self, node):
+        self.n += 1
+        if node.value is None:
+            return ast.copy_location(ast.Pass(), node)
+        return ast.copy_location(ast.Assign(targets=[node.target], value=node.value, type_comment=None), node)
+
+
 def normalise_module(tree: ast.Module) -> int:
     """Apply the normal forms to every function of the module, in place; returns the number of rewrites."""
     n = 0
+    uses_annotations = any(isinstance(x, ast.Attribute) and x.attr == '__annotations__' or
+                           isinstance(x, ast.Name) and x.id in ('dataclass', 'get_type_hints', 'NamedTuple') for x in ast.walk(tree))
+    if not uses_annotations:
+        d = _DropAnnotations()
+        d.visit(tree)
+        ast.fix_missing_locations(tree)
+        n += d.n
     lf = list_fields_of(tree)
     mf = map_fields_of(tree)
     for node in ast.walk(tree):
